@@ -3,6 +3,7 @@
 package harness
 
 import (
+	"testing/synctest"
 	"bufio"
 	"encoding/hex"
 	"fmt"
@@ -172,6 +173,25 @@ func watchdog() {
 		fmt.Fprintf(os.Stderr, "watchdog: no progress for %v during `%s`; blocked on a mutex: %s\n", limit, op, blocked)
 		os.Exit(3)
 	}
+}
+
+// bubble runs one scenario in a synctest bubble.  If the library leaves a goroutine blocked for good
+// (a handler or caller that the end of its tunnel did not release), synctest panics when the
+// scenario's main goroutine exits; the scenario's own tear-down line has already recorded the leak,
+// so the panic is absorbed here and the world goes on with the next scenario instead of dying.
+var leakedBubbles atomic.Int64
+
+func bubble(t *testing.T, f func(t *testing.T)) {
+	defer func() {
+		if r := recover(); r != nil {
+			if strings.Contains(fmt.Sprint(r), "blocked goroutines remain") {
+				leakedBubbles.Add(1)
+				return
+			}
+			panic(r)
+		}
+	}()
+	synctest.Test(t, f)
 }
 
 func TestMain(m *testing.M) {
